@@ -433,7 +433,7 @@ func (w *recorder) GetLatestCheckpoint(ctx context.Context, id string) ([]byte, 
 	cp, err := w.inner.GetLatestCheckpoint(ctx, id)
 	w.s.mu.Lock()
 	w.s.attempt++
-	e := event{Kind: "get", Attempt: w.s.attempt, Ret: cp}
+	e := event{Kind: "get", Attempt: w.s.attempt, Ret: cp, AfterCancel: w.s.cancelled != nil && w.s.cancelled()}
 	if err != nil && !errors.Is(err, os.ErrNotExist) {
 		e.Err = err.Error()
 	}
@@ -502,6 +502,7 @@ func pairReal(run *ev.Run, unit int64, r *rand.Rand, dir string, ws, ls uint64, 
 	}
 	ctx, cancel := context.WithTimeout(context.Background(), timeout)
 	defer cancel()
+	s.cancelled = func() bool { return ctx.Err() != nil }
 	o := opts(l, nil, w, logBranch, ls, &evs, &mu)
 	// attribute proof fetches to attempts
 	inner := o.FetchProof
@@ -514,7 +515,38 @@ func pairReal(run *ev.Run, unit int64, r *rand.Rand, dir string, ws, ls uint64, 
 		mu.Unlock()
 		return p, err
 	}
-	ret, ferr := feeder.FeedOnce(ctx, o)
+	var ret []byte
+	var ferr error
+	fdone := make(chan struct{})
+	go func() { ret, ferr = feeder.FeedOnce(ctx, o); close(fdone) }()
+	wd := time.Now().Add(60 * time.Second)
+wait:
+	for {
+		select {
+		case <-fdone:
+			break wait
+		case <-time.After(50 * time.Millisecond):
+		}
+		if ctx.Err() != nil {
+			// attempts begun after the context ended
+			s.mu.Lock()
+			late := 0
+			for _, e := range s.events {
+				if e.Kind == "get" && e.AfterCancel {
+					late++
+				}
+			}
+			s.mu.Unlock()
+			if late >= 2 {
+				run.Violate("attempts_after_context_end;real", fmt.Sprintf("real witness, log at %d (forked=%v), witness at %d: %d attempts were started after the cycle's context had ended", ls, forked, ws, late), unit, map[string]any{"events": summarize(s.events, evs)})
+				return
+			}
+		}
+		if time.Now().After(wd) {
+			run.Inconclusive("watchdog: FeedOnce did not return 60 s after the start of a cycle with a sub-second deadline")
+			return
+		}
+	}
 	after := rn.Snap()
 	run.Count("evaluations")
 	run.Count("real_witness_cycles")
@@ -586,27 +618,47 @@ func cancelTest(run *ev.Run, unit int64, r *rand.Rand) {
 	run.Count("evaluations")
 	run.Count("cancel_cycles")
 	run.Distinct("nontrivial", fmt.Sprintf("cancel/%s/%d", point, cancelAfter))
-	select {
-	case err := <-done:
+	startedAfter := func() int {
 		s.mu.Lock()
-		started := 0
+		defer s.mu.Unlock()
+		n := 0
 		for _, e := range s.events {
 			if e.Kind == "get" && e.AfterCancel {
-				started++
+				n++
 			}
 		}
-		detail := map[string]any{"fail_point": point, "cancel_in_attempt": cancelAfter, "err": fmt.Sprint(err), "events": summarize(s.events, evs)}
-		s.mu.Unlock()
-		if started >= 2 {
-			run.Violate("attempts_after_context_end", fmt.Sprintf("%d attempts were started after the context had ended", started), unit, detail)
+		return n
+	}
+	deadline := time.Now().Add(40 * time.Second)
+	for {
+		select {
+		case err := <-done:
+			s.mu.Lock()
+			detail := map[string]any{"fail_point": point, "cancel_in_attempt": cancelAfter, "err": fmt.Sprint(err), "events": summarize(s.events, evs)}
+			s.mu.Unlock()
+			if n := startedAfter(); n >= 2 {
+				run.Violate("attempts_after_context_end", fmt.Sprintf("%d attempts were started after the context had ended", n), unit, detail)
+			}
+			if err == nil {
+				run.Violate("success_despite_persistent_failure", "FeedOnce reported success while the stub failed persistently", unit, detail)
+			}
+			if unit < 2 {
+				run.Sample(detail)
+			}
+			return
+		case <-time.After(50 * time.Millisecond):
 		}
-		if err == nil {
-			run.Violate("success_despite_persistent_failure", "FeedOnce reported success while the stub failed persistently", unit, detail)
+		// judged on logical steps: two attempts begun after the context ended is a violation, whether or not FeedOnce ever returns
+		if n := startedAfter(); n >= 2 {
+			s.mu.Lock()
+			detail := map[string]any{"fail_point": point, "cancel_in_attempt": cancelAfter, "events": summarize(s.events, evs)}
+			s.mu.Unlock()
+			run.Violate("attempts_after_context_end", fmt.Sprintf("%d attempts were started after the context had ended (FeedOnce still running)", n), unit, detail)
+			return
 		}
-		if unit < 2 {
-			run.Sample(detail)
+		if time.Now().After(deadline) {
+			run.Inconclusive("watchdog: FeedOnce neither returned nor started further attempts within 40 s of its context ending")
+			return
 		}
-	case <-time.After(20 * time.Second):
-		run.Inconclusive("watchdog: FeedOnce did not return within 20s of its context ending")
 	}
 }
